@@ -58,6 +58,7 @@ func rulesC01(w *World, r *Report) {
 	// R2
 	w.ruleEmittedTagsDispatch(r, "C01.R2 emitted tags dispatch to their reader")
 	w.ruleFieldDispatchers(r, "C01.R2 field dispatchers accept what the writers emit")
+	w.ruleTypeSlots(r, "C01.R2 type slots: literal, or numbered like the decoder numbers them")
 	// R3
 	for _, x := range []struct {
 		fn     string
@@ -346,6 +347,7 @@ func rulesC02(w *World, r *Report) {
 	}
 	w.ruleHeaderOctets(r, "C02.R2 container headers conform", allowed)
 	w.ruleListCount(r, "C02.R2 declared count = loop bound")
+	w.ruleTypeSlots(r, "C02.R7 type slots: literal, or numbered like the decoder numbers them")
 	if fn := w.fn("(*Encoder).writeList"); fn != nil {
 		w.ruleCompactHeaders(r, "C02.R2 compact list header carries the true length", fn, 0x70, 0x77)
 	}
